@@ -585,7 +585,7 @@ def run_C10(ctx):
                 "single-token deletion / duplication / replacement / swap of the representative policies, the named ungrammatical "
                 "families) through Policy / PolicyList / PolicySet-from-bytes / Decoder. (c) nesting families (parentheses, !, -, if, "
                 "sets, records, attribute chains, && chains, JSON arrays / records / Set / ! nodes, schema Set<> and record types) at "
-                "depths 10^3 and 10^4 (thorough: 10^5), each in a child process because a Go stack overflow is fatal. (d) every truncation "
+                "depths 10^3 and 10^4 (thorough: 10^5; 2*10^4 for schema text, whose indenting printer has quadratic output), each in a child process because a Go stack overflow is fatal. (d) every truncation "
                 "(thorough; every 7th offset quick) and random byte edits of valid documents of every kind incl. entity-UID text, "
                 "schema text and request JSON, validated by Trace_Total. evaluations = inputs run; distinct_nontrivial = distinct inputs.")
     ctx.assumptions = ["arbitrary byte strings cannot be enumerated: the specification contributes structured families and the statement",
@@ -619,7 +619,10 @@ def run_C10(ctx):
     depths = [1000, 10000] if q else [1000, 10000, 100000]
     dd = ctx.dir("depth")
     dcases = os.path.join(dd, "cases.ndjson")
-    vlib.write_ndjson(dcases, [dict(op="totaldepth", form=f, k=k) for f in forms for k in depths])
+    # the schema text printer indents by depth: its OUTPUT is quadratic in the nesting depth (256 MB at 16 000), so the
+    # schema forms stop at 20 000 -- slow is not a hang, and a deadline cannot tell them apart
+    vlib.write_ndjson(dcases, [dict(op="totaldepth", form=f, k=(min(k, 20000) if f.startswith("schema") else k))
+                               for f in forms for k in depths])
     replay_cases(ctx, "nesting", "totaldepth", dcases, len(forms))
     # (d) truncations and byte edits
     add_m3(ctx, "totalbytes", "bytes", "totalbytes", 6000 if q else 120000, params={"step": 7 if q else 1}, shards=(2 if q else vlib.MAX_SHARDS))
